@@ -13,7 +13,8 @@ RULE = ('Generated systems (1-3 types; packing fraction log-uniform 1e-3..0.4 sp
         'self pair omega in {SingleSite, Gaussian, FJC, GaussianRing, DiscreteKoyama}, cross NoIntra/InterMolecular; per pair potential in '
         '{HS, Exponential, HCLJ, LJ cut/shift, WCA} with |eps| <= 0.6 kT; per pair closure in {PY, HNC (single-site pairs), MSA, MS} '
         '+- hard-core flag; length 256..2048 incl. non powers of two, dr in {0.05..0.25}; method krylov / anderson / broyden2 / df-sane, '
-        'hybr / lm on 128-point grids; zero, perturbed and continuation guesses) solved on a density ladder rho/64..rho. Every rung '
+        'hybr / lm on 128-point grids; zero, perturbed and continuation guesses) solved on a density ladder rho/64..rho (a fresh System per rung, or one System '
+        'whose densities are edited from rung to rung). Every rung '
         'that reports success is judged: (1) H = Omega C (Omega+H) at every k with Omega, rho rebuilt from the spec by explicit pair '
         'sums and an own DST; (2) c = F(gamma_in,u) to rounding and |c - F(h-c,u)| <= sup|F\'| |y|/r with y the reported residual, F and '
         'u from the oracle library; (3) reported residual = r (gamma_out - gamma_in) of the stored arrays. Non-trivial = converged and '
@@ -174,7 +175,7 @@ class Ladder(Sub):
 
     def strategy(self, tier):
         return st.tuples(S.system_spec(big=(tier == 'thorough'), methods=('krylov', 'krylov', 'krylov', 'krylov', 'anderson', 'broyden2', 'df-sane')),
-                         st.one_of(st.none(), st.none(), specs.array_desc(4, (-4, -2)))).map(lambda t: dict(t[0], perturb=t[1]))
+                         st.one_of(st.none(), st.none(), specs.array_desc(4, (-4, -2))), st.booleans()).map(lambda t: dict(t[0], perturb=t[1], sweep=t[2]))
 
     def check(self, spec):
         from . import build
@@ -188,7 +189,9 @@ class Ladder(Sub):
             out.label('guess=perturbed')
         judged = 0
         info = {}
-        for scale, pr, res in S.solve_ladder(spec, perturb=perturb):
+        if spec.get('sweep'):
+            out.label('one-System-swept')
+        for scale, pr, res in S.solve_ladder(spec, perturb=perturb, reuse_system=bool(spec.get('sweep'))):
             if res is None or not res.success:
                 out.label('rung-not-converged')
                 break
@@ -210,7 +213,7 @@ class Ladder(Sub):
 class DenseMethods(Sub):
     name = 'dense-methods'
     doc = 'hybr / lm (dense Jacobian) on 128-point grids, 1-2 types'
-    budget = {'quick': 16, 'thorough': 640}
+    budget = {'quick': 12, 'thorough': 640}
     shrink = {'quick': False, 'thorough': False}
 
     def strategy(self, tier):
